@@ -37,6 +37,17 @@ class LinAcc:
             return c
         if isinstance(e, ast.Constant) and e.value == 0:
             return {}
+        if isinstance(e, ast.Call) and text(e.func) in (
+                'np.squeeze', 'float', 'np.asarray', 'np.array', 'np.real',
+                'np.ravel') and len(e.args) >= 1:
+            return self.form(e.args[0])
+        if isinstance(e, ast.Call) and isinstance(
+                e.func, ast.Attribute) and e.func.attr in (
+                    'item', 'squeeze', 'flatten', 'ravel', 'copy') and \
+                not e.args:
+            return self.form(e.func.value)
+        if isinstance(e, ast.Attribute) and e.attr in ('real', 'T'):
+            return self.form(e.value)
         if isinstance(e, ast.Call) and text(e.func) in ('np.zeros',
                                                         'np.zeros_like'):
             return {}
